@@ -11,10 +11,12 @@
 pub mod crash;
 pub mod genmsg;
 pub mod names;
+pub mod netsim;
 pub mod refmodel;
 pub mod rng;
 pub mod run;
 pub mod textgen;
+pub mod universe;
 
 pub use rng::Rng;
 pub use run::{Run, Tier};
